@@ -8,6 +8,31 @@ TRUSTED = ("Trusted base: go/types+go/ssa construction of the verified text, the
            "assumed contracts of external functions are listed per run in the evidence file (assumptions[]).")
 
 claimed = {
+ "C01": dict(
+   text="The acceptance set of BLS verification is derived, contract by contract, from the real Go and C code: Verify returns result0 == (g1canon(s) && inG1(g1pt(s)) && e(g1pt(s), -g2) * e(H, pk) == 1) with H = map_to_G1 of the hasher output, for every 48-byte s, every message and every hasher with the KMAC configuration ghost; "
+        "every other length, nil/ill-configured hasher and the identity flag give (false, nil) or the documented error. The C layer is verified from the clang AST: E1_read_bytes accepts exactly the canonical ZCash compressed encodings (flag bits, x < p, on-curve via sqrt, sign selection, infinity = 0xC0 then 47 zero bytes) and returns the decoded point, "
+        "bls_verify checks G1 membership before the pairing, bls_sign writes the canonical encoding of sk*H. That exactly ONE string is accepted is the arithmetic lemma bls-acceptance, proved by the solver in the discrete-log model of the pairing groups (dS*(r-1) + sk*log H = 0 mod r iff dS = sk*log H mod r), combined with injectivity of the canonical encoding; reading the proved pairing condition as that dlog equation (cyclic groups of prime order r, bilinear non-degenerate pairing) is a paper step. "
+        "The identity flag of a public key is tied to the point by the representation invariant pkWF, established by every function that creates or writes a public key object (the list of writers is recomputed from the SSA on every run; a new writer outside the contracts fails `invariant-writers`).",
+   note=TRUSTED + " BLST primitives (field arithmetic, sqrt, point addition/multiplication, in_G1/in_G2, miller loop and final exponentiation, hash-to-curve map) are uninterpreted functions with the algebraic axioms listed in DESIGN.md §theories: their bodies (C and assembly of BLST) are not verified. "
+        "KMAC128/cSHAKE is the assumed contract of C13. Collision resistance (distinct messages hash to distinct points) is outside any contract: `another message yields false` is proved only in the form `the verdict is the pairing equation on H(m)`.",
+   design="§5 C01"),
+ "C05": dict(
+   text="BLS serialization: Fr_read_bytes/Fr_star_read_bytes/Fr_write_bytes, Fp_read_bytes/Fp_write_bytes, Fp2_read/write_bytes, E1/E2_read_bytes, E1/E2_write_bytes (C, verified from the clang AST against the ZCash compressed format) and their Go callers readScalarFrStar, readPointE1/E2, writeScalar, writePointE1/E2, decodePrivateKey, decodePublicKey, decodePublicKeyCompressed, prKey/pubKey Encode: "
+        "accepted private keys are exactly the 32-byte big-endian scalars in [1, r-1] (else invalidInputsError) and the key holds that scalar; accepted public keys are exactly 96-byte canonical encodings of G2 points (membership check included) and the key holds the decoded point with its identity flag; Encode writes the canonical encoding of the stored value, so decode-then-encode is the identity on accepted strings (canonical-encoding injectivity). "
+        "The ZCash coordinate ORDER of G2 (c1 first) is a postcondition that FAILS on the real code: reported as known finding F2 (c0||c1 is written). ECDSA decoders/encoders (Go standard library and btcec) are NOT covered by this check.",
+   note=TRUSTED + " Big-endian limb conversion (limbs_from_be_bytes / be_bytes_from_limbs), Montgomery conversion and the BLST field/curve primitives are assumed contracts (uninterpreted functions). ECDSA half of the property not decided: it would only restate assumed contracts of crypto/elliptic and btcec.",
+   design="§5 C05"),
+ "C16": dict(
+   text="BLSVerifyPOP(pk, s) is proved to be Verify(pk.Encode(), s) under the hasher popKMAC whose configuration ghost is the PoP ciphersuite key (global fact, checked immutable), BLSGeneratePOP(sk) to be Sign(sk.PublicKey().Encode()) under the same hasher; identity-flagged keys give false. "
+        "Domain separation: NewExpandMsgXOFKMAC128(tag) is proved to key KMAC128 with tag || BLS_SIG_ suite; the lemma string-separation (built from the package's real constants and proved by the solver over the sequence theory) shows that for every tag this key differs from the PoP key; "
+        "different keys give different cSHAKE initial states under the assumed injectivity of the KMAC configuration (kmacCfg). The public key identity-flag invariant pkWF is part of the check (see C01).",
+   note=TRUSTED + " `A signature under another KMAC key does not verify as a PoP` additionally needs KMAC to behave as a PRF/random oracle: a cryptographic assumption, not a contract. What is proved is that the two hashers are differently keyed for every tag, and that PoP verification is signature verification under the PoP hasher.",
+   design="§5 C16"),
+ "C17": dict(
+   text="SPOCKVerify is proved (Go glue and bls_spock_verify in C, from the clang AST) to return true exactly when both proofs have length 48, are canonical encodings of points in G1 (membership checked on BOTH proofs), neither key is identity-flagged and fp12IsOne(e(p1, -pk2) * e(p2, pk1)); wrong types give errNotBLSKey, all other failures false. "
+        "SPOCKProve == Sign and SPOCKVerifyAgainstData == Verify (same postconditions, not-a-BLS-key error exact). Swap symmetry: the syntactic guards are proved symmetric (both lengths, both memberships, both identity flags) and the pairing equation is symmetric by the arithmetic lemma spock-equation-is-symmetric (discrete-log model; identifying the pairing product with that equation is a paper step). The identity-flag invariant pkWF of public key objects (incl. keys made by AggregateBLSPublicKeys / RemoveBLSPublicKeys / decode / computePublicKey) is part of the check.",
+   note=TRUSTED + " BLST primitives and the pairing are uninterpreted with algebraic axioms (DESIGN.md §theories).",
+   design="§5 C17"),
  "C15": dict(
    text="Every function of random/rand.go that the property names is verified against a contract by weakest-precondition VCs over go/ssa, "
         "discharged by SMT for all inputs and all iterations: UintN (bit-vector mode) result < n, mask is the tight all-ones cover of n-1, the "
